@@ -269,7 +269,7 @@ def rule_id_order(ck, facts, cg, par):
         for b, t in f.calls():
             c = callee(t) or ""
             name = c.split("::")[-1]
-            if name in ("sort_by_key", "sort_unstable_by_key", "max_by_key", "min_by_key", "sort_by_cached_key", "binary_search_by_key", "dedup_by_key"):
+            if name.endswith(("by_key", "by_cached_key")) and not name.startswith(("unique", "dedup_by_key_ignore", "group", "chunk", "into_group", "counts", "all_unique")):
                 n += 1
                 di = di or DefIndex(f)
                 kty = None
@@ -291,7 +291,7 @@ def rule_id_order(ck, facts, cg, par):
                     n += 1
                     root = f.root.split("::", 1)[1]
                     ck.bad(R, "cmp|%s|%s" % (root, a0.split("::")[-1]), "%s compares two %s values by their interner ids: the result depends on interning history" % (f.short, a0), f.where(t))
-            elif name in ("sort", "sort_unstable", "dedup"):
+            elif name in ("sort", "sort_unstable", "dedup", "sorted", "sorted_unstable"):
                 a0 = callee_full(t) or ""
                 if any(x in a0 for x in ID_TYPES):
                     n += 1
